@@ -13,7 +13,7 @@ def call(name, shallow, direct=False):
 
     # direct: the context is read by an expression-valued default argument of the called task itself, so that sibling calls
     # under ONE parent job differ only in their context
-    t = T.cleaf if direct else (T.cmid_s if shallow else T.cmid)
+    t = T.cdef if direct == "default-arg" else (T.cleaf if direct else (T.cmid_s if shallow else T.cmid))
     return t(1) if CTX[name] is None else t.update_context(CTX[name])(1)
 
 
@@ -35,6 +35,13 @@ def cases(tier):
                 if not shallow:
                     out.append({"ctxs": list(combo), "mode": "seq", "shallow": False, "direct": True})
                     out.append({"ctxs": list(combo), "mode": "concurrent", "shallow": False, "direct": True})
+                if not shallow and n == 2:
+                    # the context-reading call is a default argument of the called task (evaluated in that job's environment)
+                    out.append({"ctxs": list(combo), "mode": "seq", "shallow": False, "direct": "default-arg"})
+                    out.append({"ctxs": list(combo), "mode": "split", "shallow": False, "direct": "default-arg"})
+                # somebody tags the recorded call nodes between two executions (`redun tag add <call_hash> reviewed=true`)
+                if n == 2:
+                    out.append({"ctxs": list(combo), "mode": "split", "shallow": shallow, "tag_between": True})
     if tier == "quick":
         for combo in [("A", "none", "A"), ("none", "A", "none"), ("A", "B", "none")]:
             for shallow in (False, True):
@@ -62,6 +69,12 @@ def scenario(case, prefix):
             for c in case["ctxs"]:
                 o = env.run(call(c, case["shallow"], case.get("direct", False)))
                 outs.append(o)
+                if case.get("tag_between"):
+                    from redun.backends.db import CallNode
+                    from redun.backends.base import TagEntity
+
+                    for (h,) in env.backend.session.query(CallNode.call_hash).all():
+                        env.backend.record_tags(TagEntity.CallNode, h, [("reviewed", True)])
                 got.append(o[1] if o[0] == "ok" else None)
         return env.ctl, {"outs": [(o[0], repr(o[1:])) for o in outs], "got": [tuple(g) if g is not None else None for g in (got or [])]}
     finally:
@@ -81,7 +94,7 @@ def explore_case(arg):
         if res["got"] != want:
             i = next((k for k, (g, w) in enumerate(zip(res["got"], want)) if g != w), 0)
             prev = case["ctxs"][:i]
-            sig = f"shared-across-contexts:{'direct:' if case.get('direct') else ''}{case['mode']}:{'shallow' if case['shallow'] else 'full'}:call={case['ctxs'][i]}:after={'+'.join(prev) or '-'}"
+            sig = f"shared-across-contexts:{(str(case.get('direct')) + ':').replace('True', 'direct') if case.get('direct') else ''}{'tagged:' if case.get('tag_between') else ''}{case['mode']}:{'shallow' if case['shallow'] else 'full'}:call={case['ctxs'][i]}:after={'+'.join(prev) or '-'}"
             viol.append((sig, {"case": case, "choices": choices},
                          f"{case}: call #{i} with context '{case['ctxs'][i]}' returned {res['got'][i] if i < len(res['got']) else res}, expected {want[i]} (all: {res['got']})"))
 
@@ -117,7 +130,8 @@ def run(ctx):
         "states": len(states), "transitions": sum(r["ntrans"] for r in res), "traces_validated_against_impl": execs,
         "cases": len(cs), "cases_full_interleaving_tree": sum(1 for r in res if r["full"]), "exhaustive": all(r["full"] for r in res),
         "rule": "programs calling mid(1) -> leaf(1, v=get_context('v')) two (thorough: three) times under contexts from {none, A, B} in every "
-        "order: forced order (seq), concurrent (list), or split over successive executions on one backend; check_valid full and shallow; all "
+        "order: forced order (seq), concurrent (list), or split over successive executions on one backend; check_valid full and shallow; variants where the context is read by the called task's own default argument, where the "
+        "context-reading call itself is a default argument, and where all call nodes get an extra tag between executions; all "
         "completion interleavings; oracle: every call returns the value belonging to its own effective context",
         "samples": cs[:3],
     }, "assumptions": ["see C08 evidence for the schedule space"]}
